@@ -63,6 +63,9 @@ pub struct Scenario {
     /// capture the solver's internal state after every solve (guarded verif-hooks accessor)
     #[serde(default)]
     pub capture_state: bool,
+    /// call `Solver::with_runtime` (same kind of runtime) between an Unsolvable result and rendering it
+    #[serde(default)]
+    pub rewrap_before_render: bool,
 }
 
 #[derive(Clone, Debug, PartialEq, Serialize, Deserialize)]
@@ -156,6 +159,7 @@ impl Scenario {
             extra: None,
             cancel_during_render: false,
             capture_state: false,
+            rewrap_before_render: false,
         }
     }
 }
@@ -442,8 +446,9 @@ fn render<RT: AsyncRuntime>(
     r.map_err(|_| take_panic())
 }
 
-fn drive<RT: AsyncRuntime>(
+fn drive<RT: AsyncRuntime + Clone>(
     mut solver: Solver<SimProvider, RT>,
+    rt: RT,
     sc: &Scenario,
     core: &Rc<SimCore>,
     outcomes: &mut Vec<Outcome>,
@@ -489,6 +494,9 @@ fn drive<RT: AsyncRuntime>(
                 Outcome::Cancelled(v.downcast_ref::<Token>().cloned())
             }
             Ok(Err(UnsolvableOrCancelled::Unsolvable(conflict))) => {
+                if sc.rewrap_before_render {
+                    solver = solver.with_runtime(rt.clone());
+                }
                 if sc.render {
                     match render(&solver, &conflict) {
                         Ok(r) => Outcome::Unsolvable(Some(r)),
@@ -617,11 +625,12 @@ pub fn execute_with_salt(sc: &Scenario, salt: u64) -> RunRecord {
     };
     match sc.runtime {
         RuntimeKind::NowOrNever => {
-            drive::<NowOrNeverRuntime>(solver, sc, &core, &mut outcomes, &mut spans, &mut dumps)
+            drive::<NowOrNeverRuntime>(solver, NowOrNeverRuntime, sc, &core, &mut outcomes, &mut spans, &mut dumps)
         }
         RuntimeKind::Sim => {
-            let solver = solver.with_runtime(SimRuntime { core: core.clone() });
-            drive(solver, sc, &core, &mut outcomes, &mut spans, &mut dumps)
+            let rt = SimRuntime { core: core.clone() };
+            let solver = solver.with_runtime(rt.clone());
+            drive(solver, rt, sc, &core, &mut outcomes, &mut spans, &mut dumps)
         }
     }
     let log = core.log.borrow().clone();
